@@ -14,7 +14,7 @@ def run(ctx):
     if not ctx.translate():
         return
     ok = ctx.prove(MODULES, needs_gen=GEN)
-    n = 150 if ctx.thorough() else 30
+    n = 600 if ctx.thorough() else 30
     res = fw.corr(ctx, "route", n)
     fw.report_corr(ctx, "route", res, known_features)
     if res is not None:
